@@ -441,9 +441,13 @@ def main(modname, tier, seed):
                 merge(out, parts[args[2]].name)
 
     if harness_errors:
+        # an exception escaped a case outside the places where the check expects one.  Alone it is a harness error (exit 2,
+        # never a VIOLATION); if other cases produced violations these are still reported below (exit 1) - on a changed
+        # tree an unexpected exception and a violation usually have the same cause
         print("HARNESS ERROR in %s (%d); first:\n%s" % (pid, len(harness_errors), harness_errors[0]))
-        write_evidence(check, tier, seed, total, parts, t0, -1, {}, "harness error")
-        return 2
+        if not any(not findings_mod.is_known(known, pid, sig) for sig in total["sigs"]):
+            write_evidence(check, tier, seed, total, parts, t0, -1, {}, "harness error")
+            return 2
 
     # 3. verdict: known findings are reported, new signatures are shrunk and saved
     new_sigs, known_hits = {}, {}
